@@ -152,8 +152,11 @@ def run_scenario(K: float, sched: dict[int, str], n_grid: int, gdiv: int, mtypes
         if awaited and conn.is_connected and i % gdiv == 1 and i <= n_grid:
             # the application waits for an answer the device never gives: the request times out half an interval later -
             # whether a request was answered says nothing about messages having arrived
+            # (alternately a request that gives up within the interval and one that is still waiting at the next tick: a
+            # request in flight is no reason to skip a ping)
+            span = max(1, gdiv // 2) if (i // gdiv) % 2 == 0 else gdiv + max(1, gdiv // 2)
             calls.append(simnet.spawn(loop, conn.send_message_await_response(pb.ListEntitiesRequest(), pb.ListEntitiesDoneResponse,
-                                                                              max(1, gdiv // 2) * (K / gdiv)), f"call{i}"))
+                                                                              span * (K / gdiv)), f"call{i}"))
             loop.run_idle()
         if "b" in what:
             msg()
